@@ -1909,5 +1909,8 @@ func CopyQuery(query *Query) *Query {
 		orderByDefinition: query.orderByDefinition,
 		options:           query.options,
 		postProcessors:    query.postProcessors,
+		distinct:          query.distinct,
+
+		singletonExecutions: make(map[string]any),
 	}
 }
